@@ -1265,8 +1265,15 @@ class _iterinfo(object):
             self.eastermask = [0]*(self.yearlen+7)
             eyday = easter.easter(year).toordinal()-self.yearordinal
             for offset in rr._byeaster:
-                if 0 <= eyday+offset < self.yearlen+7:
+                if 0 <= eyday+offset < self.yearlen:
                     self.eastermask[eyday+offset] = 1
+            if year < datetime.MAXYEAR:
+                # The 7 extra days belong to next year: use its Easter.
+                eyday = (easter.easter(year+1).toordinal() -
+                         self.yearordinal)
+                for offset in rr._byeaster:
+                    if self.yearlen <= eyday+offset < self.yearlen+7:
+                        self.eastermask[eyday+offset] = 1
 
         self.lastyear = year
         self.lastmonth = month
